@@ -65,7 +65,8 @@ class Scoreboard:
 
         diff_result = date - self.startDate
         diff: float = diff_result.total_seconds()
-        idx = int(diff / self.resolution)
+        # floor, not truncation: an instant just before the start lies in slot -1, not in slot 0
+        idx = math.floor(diff / self.resolution)
 
         if forceIntoProject:
             if idx < 0:
